@@ -1,4 +1,5 @@
 import LinfaSpec.Model.Serde
+import LinfaSpec.Props.C19
 import LinfaSpec.Gen.C19Types
 
 /-!
@@ -46,5 +47,46 @@ theorem struct_keys_distinct :
 /-- the live variant names of every enum are distinct: hypothesis of `variant_index_shifted_by_leading_skip` -/
 theorem variant_names_distinct : types.all (fun t => nodupStrings (liveNames t.variants)) = true := by
   decide +kernel
+
+/-- bridging lemma: a type without excluded members has no skipped field -/
+theorem fields_live_of_skipsOf_nil (t : TypeInfo) (h : skipsOf t = []) :
+    t.fields.all (fun f => !f.skip) = true := by
+  have h1 : (t.fields.filter fun f => f.skip).map (fun f => f.name) = [] := (List.append_eq_nil_iff.mp h).1
+  have h2 : (t.fields.filter fun f => f.skip) = [] := List.map_eq_nil_iff.mp h1
+  rw [List.all_eq_true]
+  intro f hf
+  cases hs : f.skip
+  · rfl
+  · have : f ∈ t.fields.filter fun f => f.skip := List.mem_filter.mpr ⟨hf, hs⟩
+    rw [h2] at this; cases this
+
+/-- **every struct of today's sources other than the count-vectoriser parameters restores all its fields
+unchanged**, whatever the values and whatever a skipped field's default would be: the glue theorem
+`no_skip_roundtrip_identity` applied to the generated table through `skips_are_the_reviewed_ones` -/
+theorem all_other_structs_restore_identically (t : TypeInfo) (ht : t ∈ types)
+    (hid : t.id ≠ "linfa::Error" ∧ t.id ≠ "linfa-preprocessing::CountVectorizerValidParams")
+    (dflt : FieldInfo → Val) (vs : List Val) (hl : t.fields.length = vs.length) :
+    restore dflt t.fields vs = vs := by
+  apply LinfaSpec.Props.C19.no_skip_roundtrip_identity dflt t.fields vs hl
+  apply fields_live_of_skipsOf_nil
+  by_cases hnil : skipsOf t = []
+  · exact hnil
+  · exfalso
+    have hmem : (t.id, skipsOf t) ∈ skipTable types := by
+      simp only [skipTable, List.mem_filter, List.mem_map]
+      refine ⟨⟨t, ht, rfl⟩, ?_⟩
+      cases hsk : skipsOf t with
+      | nil => exact absurd hsk hnil
+      | cons a r => rfl
+    rw [skips_are_the_reviewed_ones] at hmem
+    simp only [List.mem_cons, Prod.mk.injEq, List.not_mem_nil, or_false] at hmem
+    rcases hmem with h | h
+    · exact hid.1 h.1
+    · exact hid.2 h.1
+
+example : ∃ t, t ∈ types ∧ t.id = "linfa-clustering::Sample" := by
+  have h : (types.find? fun t => t.id == "linfa-clustering::Sample").isSome = true := by decide +kernel
+  obtain ⟨t, ht⟩ := Option.isSome_iff_exists.mp h
+  exact ⟨t, List.mem_of_find?_eq_some ht, by simpa using List.find?_some ht⟩
 
 end LinfaSpec.Props.GenC19
